@@ -106,7 +106,7 @@ ApplyWord(rows, u) == IF u = <<>> THEN rows ELSE ApplyWord(MatMul(rows, T[Head(u
 (* Classes                                                                 *)
 (***************************************************************************)
 ProjClasses == {"Point", "PointPair", "Polygon", "Transformation"}
-HypClasses == {"HPoint", "Geodesic", "Segment", "Tangent", "HPolygon", "Isometry"}
+HypClasses == {"HPoint", "Geodesic", "Segment", "Tangent", "HPolygon", "Isometry", "Horosphere", "HoroArc"}
 Classes == ProjClasses \cup HypClasses
 HasDerived(c) == c \in {"Polygon", "HPolygon", "Segment", "Tangent"}
 \* whole-array projective scale (matrices) or one scale per row (tuples of points)
@@ -114,6 +114,16 @@ WholeScale(c) == c \in {"Transformation", "Isometry"}
 Letters(c) == IF c \in ProjClasses THEN 1..NTrans ELSE 1..NIso
 
 NV == IF Dim = 2 THEN 4 ELSE 3        \* vertices of a polygon: different from N and from 2
+
+\* horospheres and horospherical arcs: ideal centres HU, a mirror HV through the centre (a reflection in HV fixes
+\* HU, so it maps every horosphere based at HU to itself): the arc runs from a point to its mirror image.
+\* Different units lie on horospheres based at different ideal points.
+HU == IF Dim = 2 THEN << <<1, 1, 0>>, <<1, 0, 1>>, <<1, -1, 0>>, <<1, 0, -1>>, <<5, 3, 4>>, <<1, 1, 0>>, <<1, 0, 1>> >>
+      ELSE << <<1, 1, 0, 0>>, <<1, 0, 1, 0>>, <<1, 0, 0, 1>>, <<1, -1, 0, 0>>, <<3, 1, 2, 2>>, <<1, 1, 0, 0>>, <<1, 0, 1, 0>> >>
+HV == IF Dim = 2 THEN << <<0, 0, 1>>, <<0, 1, 0>>, <<0, 0, 1>>, <<0, 1, 0>>, <<2, 2, 1>>, <<0, 0, 1>>, <<0, 1, 0>> >>
+      ELSE << <<0, 0, 1, 0>>, <<0, 1, 0, 0>>, <<0, 1, 0, 0>>, <<0, 0, 0, 1>>, <<0, 0, 1, -1>>, <<0, 0, 1, 0>>, <<0, 1, 0, 0>> >>
+HoroP1(i) == P[Cyc(i + 1)]
+HoroP2(i) == VecMat(HoroP1(i), Refl(HV[i]))
 
 \* base matrices of the transformation-valued unit classes
 NegMat(M) == [i \in 1..Len(M) |-> [j \in 1..Len(M[i]) |-> Neg(M[i][j])]]
@@ -133,6 +143,8 @@ Base(c, i) ==
     [] c = "Geodesic" -> <<U[i], U[Cyc(i + 1)]>>
     [] c = "Segment" -> <<Add(Scale(2, U[i]), U[Cyc(i + 1)]), Add(U[i], Scale(3, U[Cyc(i + 1)]))>>
     [] c = "Tangent" -> <<P[i], W[i]>>
+    [] c = "Horosphere" -> <<HU[i], HoroP1(i)>>            \* ideal centre, a point of the horosphere
+    [] c = "HoroArc" -> <<HU[i], HoroP1(i), HoroP2(i)>>    \* ideal centre, the two end points of the arc
     [] c \in {"Polygon", "HPolygon"} -> [j \in 1..NV |-> P[Cyc(i + j - 1)]]
     [] c \in {"Transformation", "Isometry"} -> BaseMat(c, i)
 
@@ -172,6 +184,12 @@ InDomain ==
     [] cls = "Geodesic" -> LightLike(rows[1]) /\ LightLike(rows[2]) /\ ~Parallel(rows[1], rows[2])
     [] cls = "Segment" -> SegOK(rows[1], rows[2])
     [] cls = "Tangent" -> TimeLike(rows[1]) /\ ~IsZero(TanDer(rows)[2])
+    \* the centre is ideal, the points are in hyperbolic space, distinct, and lie on ONE horosphere based at the
+    \* centre: <x, u>^2 / <x, x> is the same for both
+    [] cls = "Horosphere" -> LightLike(rows[1]) /\ TimeLike(rows[2])
+    [] cls = "HoroArc" -> /\ LightLike(rows[1]) /\ TimeLike(rows[2]) /\ TimeLike(rows[3]) /\ ~Parallel(rows[2], rows[3])
+                          /\ Mink(rows[2], rows[1]) * Mink(rows[2], rows[1]) * Mink(rows[3], rows[3])
+                               = Mink(rows[3], rows[1]) * Mink(rows[3], rows[1]) * Mink(rows[2], rows[2])
     [] cls = "Polygon" -> \A j \in 1..NV : ~IsZero(rows[j]) /\ ~Parallel(rows[j], rows[(j % NV) + 1])
     [] cls = "HPolygon" -> \A j \in 1..NV : SegOK(rows[j], rows[(j % NV) + 1])
     [] OTHER -> TRUE
@@ -193,16 +211,19 @@ Equivariant ==
          LET rows == Prim(cls, k, w) d == Der(cls, k, w)
          IN /\ LightLike(d[1]) /\ LightLike(d[2]) /\ ~Parallel(d[1], d[2])
             /\ InSpan(d[1], rows[1], rows[2]) /\ InSpan(d[2], rows[1], rows[2])
+            \* the order: d[1] is the ideal point beyond end point 1 (end point 1 lies between d[1] and end point 2).
+            \* In terms of Minkowski products, which the isometries preserve (FormPreserved), so it is checked on the
+            \* base units where the numbers are small
+            /\ w = <<>> => Mink(rows[1], d[2]) * Mink(rows[2], d[1]) > Mink(rows[2], d[2]) * Mink(rows[1], d[1])
     [] OTHER -> TRUE
 
 RowsSame(c, r1, r2) ==
   IF WholeScale(c)
   THEN \A i, j, a, b \in 1..N : r1[i][j] * r2[a][b] = r1[a][b] * r2[i][j]
   ELSE \A j \in 1..Len(r1) : SameProj(r1[j], r2[j])
-\* derived data: an unordered pair for segments (the order of the two ideal endpoints is not specified)
+\* derived data, row by row (a segment's ideal endpoints are ordered: first the one beyond end point 1)
 DerSame(c, d1, d2) ==
-  CASE c = "Segment" -> (SameProj(d1[1], d2[1]) /\ SameProj(d1[2], d2[2])) \/ (SameProj(d1[1], d2[2]) /\ SameProj(d1[2], d2[1]))
-    [] c = "Tangent" -> SameProj(d1[1], d2[1]) /\ SameProj(d1[2], d2[2])
+  CASE c \in {"Segment", "Tangent"} -> SameProj(d1[1], d2[1]) /\ SameProj(d1[2], d2[2])
     [] OTHER -> \A j \in 1..Len(d1) : SameProj(d1[j][1], d2[j][1]) /\ SameProj(d1[j][2], d2[j][2])
 
 \* two ids denote the same unit: same primary data (and then, by Equivariant, the same derived data)
@@ -285,6 +306,19 @@ SL2 == << <<<<1, 1>>, <<0, 1>>>>, <<<<2, 1>>, <<1, 1>>>>, <<<<1, 0>>, <<2, 1>>>>
 ASSUME \A i \in 1..Len(SL2) : SL2[i][1][1] * SL2[i][2][2] - SL2[i][1][2] * SL2[i][2][1] = 1
 ASSUME \A i, j \in 1..Len(SL2) : i # j => SL2[i] # SL2[j]
 ASSUME PrintT("SL2 " \o ToJson(SL2))
+\* elements of SL(2, Z[i]) for the vectorised complex SL(2) maps: entries <<re, im>>
+SL2C == << <<<<<<1, 0>>, <<0, 1>>>>, <<<<0, 0>>, <<1, 0>>>>>>,
+           <<<<<<1, 1>>, <<1, 0>>>>, <<<<0, 1>>, <<1, 0>>>>>>,
+           <<<<<<0, 1>>, <<0, 0>>>>, <<<<0, 0>>, <<0, -1>>>>>>,
+           <<<<<<2, 1>>, <<1, 1>>>>, <<<<1, 0>>, <<1, 0>>>>>>,
+           <<<<<<1, 0>>, <<0, 0>>>>, <<<<2, -1>>, <<1, 0>>>>>>,
+           <<<<<<0, 0>>, <<0, 1>>>>, <<<<0, 1>>, <<1, 2>>>>>> >>
+CMul(x, y) == <<x[1] * y[1] - x[2] * y[2], x[1] * y[2] + x[2] * y[1]>>
+ASSUME \A i \in 1..Len(SL2C) :
+         LET M == SL2C[i] ad == CMul(M[1][1], M[2][2]) bc == CMul(M[1][2], M[2][1])
+         IN <<ad[1] - bc[1], ad[2] - bc[2]>> = <<1, 0>>
+ASSUME \A i, j \in 1..Len(SL2C) : i # j => SL2C[i] # SL2C[j]
+ASSUME PrintT("SL2C " \o ToJson(SL2C))
 ASSUME PrintT("GRAM " \o ToJson([dim |-> Dim, gram |-> Gram]))
 ASSUME PrintT("TRANS " \o ToJson([dim |-> Dim, trans |-> Trans]))
 ASSUME \A x \in 1..Len(RV) : LET v == RV[x] IN Mink(v, v) \in {1, 2} /\ \A i, j \in 1..N : (2 * Sig(i) * v[i] * v[j]) % Mink(v, v) = 0
